@@ -822,4 +822,8 @@ pub fn run(ctx: &mut Ctx) {
         &|| (0u8..6, proptest::collection::vec(fr(), 0..4), proptest::collection::vec(any::<u8>(), 0..8), 0u8..3, simio::script_strategy(10)).prop_map(|(proto, frames, tail, then, script)| UaeCase { proto, frames, tail, then, script }).boxed(),
         &uae_check,
     );
+    // same oracles on libFuzzer-style inputs: committed seeds + proptest-mutated seeds (both tiers),
+    // coverage-guided libFuzzer campaign with a fixed -runs (thorough tier)
+    ctx.fuzz(&crate::fuzzapi::MS_LISTENER, 30_000, 600_000, crate::fuzzapi::MS_LISTENER_RUNS_PER_JOB, crate::fuzzapi::FUZZ_JOBS);
+    ctx.fuzz(&crate::fuzzapi::MS_DIALER, 30_000, 600_000, crate::fuzzapi::MS_DIALER_RUNS_PER_JOB, crate::fuzzapi::FUZZ_JOBS);
 }
